@@ -68,6 +68,10 @@ func kInit(dir, tier string) error {
 	for fd := 0; fd < 3; fd++ {
 		syscall.CloseOnExec(fd)
 	}
+	// the harness's shared /dev/null is opened now, not at its first use: a history whose warm-up runs never
+	// needed it (both failed before a program was started) saw it appear after its baseline - one descriptor of
+	// the harness's own taken for a leak
+	nullFile()
 	return nil
 }
 
